@@ -225,8 +225,19 @@ def execute(case):
                 break
             # rebuild exactly as a restarting node does
             BS.DefaultBlockStore.instance = store
-            with env.quiet():
-                cs = read_chain_from_disk()
+            import skepticoin.scripts.utils as U
+            real_time = getattr(U, "time", None)
+            if case.get("clock_behind") and real_time is not None:
+                # the machine's clock at the restart is BEHIND the stored blocks (dead RTC battery, restored VM snapshot): what a
+                # node rebuilds from its own intact store must not depend on the wall clock
+                U.time = lambda: 1_000_000
+                info["rebuilds_with_clock_behind"] = info.get("rebuilds_with_clock_behind", 0) + 1
+            try:
+                with env.quiet():
+                    cs = read_chain_from_disk()
+            finally:
+                if real_time is not None:
+                    U.time = real_time
             live_h = max(led.nodes[x.id()].height for x in written)
             if len(cs.block_by_hash) != len(written):
                 fail("rebuild", "rebuild-lost-blocks", "rebuilt state has %d blocks, %d were written" % (len(cs.block_by_hash), len(written)))
@@ -275,6 +286,7 @@ def run(shard, tier, seed):
             batches.append(k)
             left -= k
         case.update(batches=batches, via=via, form=form, interleave=rnd.random() < 0.35, interleave_after=rnd.random() < 0.5, resave=rnd.random() < 0.4)
+        case["clock_behind"] = rnd.random() < 0.5
         if rnd.random() < 0.3:
             case.update(disk_full=[rnd.randrange(len(batches)), rnd.randrange(0, 6)], interleave=False)
         try:
@@ -283,6 +295,7 @@ def run(shard, tier, seed):
             res.error(str(e))
             return
         res.count("disk_full_faults", info.get("disk_full_faults", 0))
+        res.count("rebuilds_with_clock_behind", info.get("rebuilds_with_clock_behind", 0))
         res.evaluations += info["flushes"]
         res.count("histories")
         res.count("histories_shared_ids_switch" if shared else "histories_shared_ids_excluded")
